@@ -245,13 +245,17 @@ def _c12_step(s, rule, arg, v):
             look = _lookalike(s.code, (arg or {}).get("tag", 1))
             dl = L.CodeData.from_code(look)
             d = refs.ident_diff(look, dl.to_code(), nan_bits=True, limit=2)
+            # whatever the plain round trip of the session's own code object loses is C01's / C11's
+            # business (hand-altered code objects); only what is NEW for the look-alike is shared state
+            base = set(f for _p, f, _d in refs.ident_diff(s.code, s.d.to_code(), nan_bits=True, limit=20))
+            d = [x for x in d if x[1] not in base]
             if d:
                 v.violate("shared_state", "from_code_lookalike:" + d[0][1],
                           "from_code of a look-alike code object (other file name / stack size) does not describe it: %s %s" % (d[0][0], d[0][2]))
             again = L.CodeData.from_code(s.code)
             if again != s.d:
                 v.violate("not_repeatable", "from_code_after_lookalike", "from_code(c) changed after decoding a look-alike of c")
-            d2 = refs.ident_diff(s.code, again.to_code(), nan_bits=True, limit=2)
+            d2 = [x for x in refs.ident_diff(s.code, again.to_code(), nan_bits=True, limit=2) if x[1] not in base]
             if d2:
                 v.violate("shared_state", "from_code_after_lookalike:" + d2[0][1], "%s %s" % (d2[0][0], d2[0][2]))
             v.features["lookalike_decodes"] += 1
